@@ -263,7 +263,7 @@ func init() {
 	parserJudges["C11"] = func(pc *parserCase, verbose bool) []string { m, _ := c11Judge(pc, verbose); return m }
 	register(&Check{
 		ID:        "C11",
-		QuickSecs: 900, ThoroSecs: 1500,
+		QuickSecs: 900, ThoroSecs: 3000,
 		Rule: "input-space exploration: two trees with required options at the root, on a command and two levels down (inherited), with and without custom message, one bound to an environment variable; every argv of length <= L over 19 tokens (each required option by name, alias, abbreviation; command names; help option, its abbreviation and alias; help command; topics; positional) x 3 modes x environment {unset, set}, plus a tree with k in {1,2,3,5} required root options supplied through the environment and three sibling commands with a required option each; " +
 			"Parse / Dispatch errors (errors.Is ErrorParsing, custom text), Writer contents (help text of the right level) and instrumented CommandFns compared with the reference model; every argv of length <= 3 that supplies all required options is also given to a program object that already served one of 6 earlier rounds and must again run its function without a required-option error; distinct_nontrivial = distinct in-domain cases",
 		Assume: []string{"other trees and argv longer than L are not covered"},
